@@ -436,13 +436,19 @@ impl<'a> FieldParser<'a> {
                 // octet size is known by size field. Parse elements
                 // item by item as a vector.
                 self.check_size(&span, &quote!(#size_field));
-                let parse_element =
-                    self.parse_array_element(&format_ident!("head"), width, type_id, decl);
+                // A padded array is already parsed from a span named
+                // `head`: do not shadow it.
+                let head = if padding_size.is_some() {
+                    format_ident!("array_head")
+                } else {
+                    format_ident!("head")
+                };
+                let parse_element = self.parse_array_element(&head, width, type_id, decl);
                 self.tokens.extend(quote! {
-                    let (mut head, tail) = #span.split_at(#size_field);
+                    let (mut #head, tail) = #span.split_at(#size_field);
                     #span = tail;
                     let mut #id = Vec::new();
-                    while !head.is_empty() {
+                    while !#head.is_empty() {
                         #id.push(#parse_element?);
                     }
                 });
